@@ -110,6 +110,35 @@ def nesting_scripts():
     return out
 
 
+def in_handler_event_scripts():
+    """a NEW request arrives while a handler runs with the master enable still clear (ON key pressed, the other timer expires, a
+    matrix key goes down); the handler acknowledges its own source and returns; the new request - enabled and pending - must then
+    be taken, with no further event to help (timers off afterwards, no HALT)"""
+    def S(k, **kw):
+        return {"ev": "Step", "ins": dict({"k": k}, **kw)}
+    out = []
+    for first, mask in ((0, 0x8B), (1, 0x8B), (0, 0x8F), (1, 0x8A | 0x01)):
+        for late in ("OnKey", "Timer0", "Timer1", "Key"):
+            if late == f"Timer{first}":
+                continue
+            for pad in (0, 2):
+                s = [S("SETIMR", v=mask), S("NOP")]
+                if late == "Key":
+                    s.append(S("STROBE", v=0xFF))
+                s += [{"ev": "Timer", "s": first}, S("NOP"), S("NOP")]                 # delivery, then inside the handler
+                s += [S("CLRISR", m=[first])]
+                s += [S("NOP")] * pad
+                if late == "OnKey":
+                    s += [{"ev": "OnKey"}, S("NOP"), {"ev": "OnKeyUp"}]
+                elif late == "Key":
+                    s += [{"ev": "Key", "code": 0x01, "press": True}] + [S("NOP")] * 8
+                else:
+                    s += [{"ev": "Timer", "s": int(late[-1])}, S("NOP")]
+                s += [S("NOP"), S("RETI")] + [S("NOP")] * 6 + [S("ALU"), S("NOP")]
+                out.append(s)
+    return out
+
+
 def drive_shard(shard_id, items, extra):
     sys.path.insert(0, str(vlib.VERIF / "harness" / "py"))
     vlib.setup_repo_imports()
@@ -136,6 +165,8 @@ def _shape(clause: str, impl: str, detail) -> str:
     kind, pre, post, frame = detail[:4]
     if clause in ("StatusNotLost", "DeliveredSourceEnabled"):
         return detail[4]
+    if clause == "PromptAfterUnmask":
+        return ("pending-flag-not-rearmed-from-status" if pre.get("pend") == 0 else "general") + ":" + str(detail[4])
     if clause in ("OffStopsTimers", "OffExecutesNothing"):
         return "off-behaves-like-halt"
     if clause == "DeliverOnlyIfEnabled":
@@ -206,6 +237,7 @@ def run(cr: CheckRun) -> None:
     rnd = random.Random(cr.seed)
     ritems = [random_script(rnd, 40) for _ in range(400 if quick else 6000)]
     ritems += nesting_scripts()
+    ritems += in_handler_event_scripts()
     campaign(cr, ritems, "random-scripts")
     cr.mark("random")
     cr.cov["distinct_nontrivial"] = len({json.dumps(b, sort_keys=True) for b in items + sitems + ritems})
